@@ -293,8 +293,8 @@ def inject_reserved(rng, t, shape):
 class JsonGen:
   """Arbitrary / malformed JSON for `from_json` (JV wire)."""
 
-  def __init__(self, rng, str_form=False):
-    self.rng, self.str_form = rng, str_form
+  def __init__(self, rng, str_form=False, unknown_bias=False):
+    self.rng, self.str_form, self.unknown_bias = rng, str_form, unknown_bias
 
   def leaf(self):
     r = self.rng
@@ -342,7 +342,7 @@ class JsonGen:
               ['z', self.value(depth - 1)]],
     }[cls]
     kvs = [[TYPE_KEY, MOD + cls]] + good
-    m = r.below(14)
+    m = 0 if (self.unknown_bias and r.chance(0.45)) else r.below(14)
     if m == 0:                                   # unknown class
       kvs[0][1] = r.choice(['nope.Nope', 'harness.c05_classes.Nope', 'P'])
     elif m == 1:                                 # _type not a string
@@ -1429,9 +1429,10 @@ class C05(Prop):
       yield case
     for i in range(n_load):
       sf = rng.chance(0.4)
-      jg = JsonGen(rng, str_form=sf)
+      ad = (not sf) and rng.chance(0.35)
+      jg = JsonGen(rng, str_form=sf, unknown_bias=ad)
       case = {'kind': 'load_str' if sf else 'load', 'json': jg.value(rng.randint(0, 3)), 'ap': rng.chance(0.4)}
-      if not sf and rng.chance(0.35):
+      if ad:
         case['auto_dict'] = True
       yield case
     for i in range(n_store):
